@@ -29,7 +29,7 @@ package termincommittee
 //@ pred IsMember(members []interfaces.CommitteeMember, id primitives.MemberId) = exists mi :: 0 <= mi && mi < len(members) && members[mi].Id == id
 //@ pred LeaderOf(members []interfaces.CommitteeMember, v primitives.View) = members[v % len(members)].Id
 //@ pred Signed(tic *TermInCommittee, hdr *protocol.BlockRef, snd *protocol.SenderSignature) = VerifiedMsg(tic.keyManager, hdr.BlockHeight(), hdr.Raw(), snd.MemberId(), snd.Signature())
-//@ pred TicOK(tic *TermInCommittee) = tic.State != nil && tic.messageFactory != nil && len(tic.committeeMembers) >= 4 && tic.storage != nil
+//@ pred TicOK(tic *TermInCommittee) = tic.State != nil && tic.messageFactory != nil && len(tic.committeeMembers) >= 4 && tic.storage != nil && tic.keyManager != nil && tic.blockUtils != nil && tic.electionTrigger != nil
 //@   | && SumMW(tic.committeeMembers, len(tic.committeeMembers)) < 2^64
 //@   | && tic.messageFactory.memberId == tic.myMemberId && tic.messageFactory.keyManager == tic.keyManager
 //@   | && IsMember(tic.committeeMembers, tic.myMemberId)
@@ -185,7 +185,8 @@ package termincommittee
 //@   requires [term-not-yet-committed] ncommitted == 0
 //@   ensures [O9.lock-kept] LockKept(tic, old(tic.preparedLocally), old(tic.preparedLocally.isPreparedLocally), old(tic.preparedLocally.latestView))
 //@   inv GhostInv(tic)
-//@   props C08 C10 C03 C09
+//@   props C08 C10 C03 C09 C12
+//@   safety iface
 //@   requires TicOK(tic)
 //@   requires [FilterOK] pm != nil && pm.content != nil && pm.content.SignedHeader().BlockHeight() == tic.State.height && pm.content.Sender().MemberId() != tic.myMemberId
 //@   modifies @TIC
@@ -194,7 +195,8 @@ package termincommittee
 //@   requires [term-not-yet-committed] ncommitted == 0
 //@   ensures [O9.lock-kept] LockKept(tic, old(tic.preparedLocally), old(tic.preparedLocally.isPreparedLocally), old(tic.preparedLocally.latestView))
 //@   inv GhostInv(tic)
-//@   props C08 C10 C03 C09
+//@   props C08 C10 C03 C09 C12
+//@   safety iface
 //@   requires TicOK(tic)
 //@   requires [FilterOK] cm != nil && cm.content != nil && cm.content.SignedHeader().BlockHeight() == tic.State.height && cm.content.Sender().MemberId() != tic.myMemberId
 //@   modifies @TIC
@@ -204,7 +206,8 @@ package termincommittee
 //@   requires [counted-only-from-current-view-on] view >= tic.State.view
 //@   ensures [O9.lock-kept] LockKept(tic, old(tic.preparedLocally), old(tic.preparedLocally.isPreparedLocally), old(tic.preparedLocally.latestView))
 //@   inv GhostInv(tic)
-//@   props C10 C03 C09
+//@   props C10 C03 C09 C12
+//@   safety iface
 //@   requires TicOK(tic)
 //@   requires blockHeight == tic.State.height
 //@   modifies @TIC
@@ -227,7 +230,8 @@ package termincommittee
 
 //@ func (*TermInCommittee).sendCommitIfNotAlreadySent
 //@   requires [term-not-yet-committed] ncommitted == 0
-//@   props C10 C03
+//@   props C10 C03 C12
+//@   safety iface
 //@   requires TicOK(tic)
 //@   inv GhostInv(tic)
 //@   requires [O10.4.commit-quorum-for-accepted-proposal] ppStored[view] && ppHash[view] == content(blockHash)
@@ -260,7 +264,8 @@ package termincommittee
 //@   ensures Commits(self, blockHeight, result0, result1) && result0 != nil && result0.Height() == blockHeight
 
 //@ func (*TermInCommittee).validatePreprepare
-//@   props C07 C08 C10
+//@   props C07 C08 C10 C12
+//@   safety iface
 //@   requires TicOK(tic) && ppm != nil && ppm.content != nil && ppm.content.SignedHeader().BlockHeight() == tic.State.height
 //@   ensures [sound.not-yet-stored] result == nil ==> !ppStored[ppm.content.SignedHeader().View()]
 //@   ensures [sound.signed] result == nil ==> Signed(tic, ppm.content.SignedHeader(), ppm.content.Sender())
@@ -270,7 +275,8 @@ package termincommittee
 //@ func (*TermInCommittee).processPreprepare
 //@   requires [term-not-yet-committed] ncommitted == 0
 //@   ensures [O9.lock-kept] LockKept(tic, old(tic.preparedLocally), old(tic.preparedLocally.isPreparedLocally), old(tic.preparedLocally.latestView))
-//@   props C04 C07 C08 C10 C09
+//@   props C04 C07 C08 C10 C09 C12
+//@   safety iface
 //@   requires TicOK(tic)
 //@   inv GhostInv(tic)
 //@   requires [adopt.authentic-proposal] ProposalOK(tic, ppm)
@@ -282,7 +288,8 @@ package termincommittee
 //@   assert before call For [O15.7.validation-runs-under-the-context-of-the-proposal-view] $hv.height == tic.State.height && $hv.view == ppm.content.SignedHeader().View()
 //@   requires [term-not-yet-committed] ncommitted == 0
 //@   ensures [O9.lock-kept] LockKept(tic, old(tic.preparedLocally), old(tic.preparedLocally.isPreparedLocally), old(tic.preparedLocally.latestView))
-//@   props C04 C07 C08 C10 C09 C15
+//@   props C04 C07 C08 C10 C09 C15 C12
+//@   safety iface
 //@   requires TicOK(tic)
 //@   inv GhostInv(tic)
 //@   requires [FilterOK] ppm != nil && ppm.content != nil && ppm.content.SignedHeader().BlockHeight() == tic.State.height && ppm.content.Sender().MemberId() != tic.myMemberId
@@ -292,7 +299,8 @@ package termincommittee
 // ---------------- NEW_VIEW (C07) ----------------
 
 //@ func (*TermInCommittee).validateViewChangeVotes
-//@   props C07 C08
+//@   props C07 C08 C12
+//@   safety iface
 //@   requires TicOK(tic)
 //@   requires forall k :: 0 <= k && k < len(confirmations) ==> confirmations[k] != nil
 //@   ensures [sound.quorum] result == nil ==> (exists ids []primitives.MemberId :: len(ids) == len(confirmations) && (forall k :: 0 <= k && k < len(confirmations) ==> ids[k] == confirmations[k].Sender().MemberId())
@@ -328,12 +336,14 @@ package termincommittee
 // the closure handed to ValidatePreparedProof computes the leader of the term's committee (discharges the assumed
 // contract of the calcLeaderId parameter)
 //@ func (*TermInCommittee).isViewChangeValid$1
-//@   props C07 C08
+//@   props C07 C08 C12
+//@   safety iface
 //@   requires len(tic.committeeMembers) >= 1
 //@   ensures [leader-of-term-committee] result == LeaderOf(tic.committeeMembers, view)
 
 //@ func (*TermInCommittee).isViewChangeValid
-//@   props C07 C08 C09
+//@   props C07 C08 C09 C12
+//@   safety iface
 //@   requires TicOK(tic) && vcm != nil
 //@   ensures [sound.signed] result == nil ==> VerifiedMsg(tic.keyManager, vcm.SignedHeader().BlockHeight(), vcm.SignedHeader().Raw(), vcm.Sender().MemberId(), vcm.Sender().Signature())
 //@   ensures [sound.signed-type] result == nil ==> vcm.SignedHeader().MessageType() == protocol.LEAN_HELIX_VIEW_CHANGE
@@ -343,7 +353,8 @@ package termincommittee
 // the vote with the highest prepared-proof view (sort.Slice is modelled by A-SORT: permutation, no inversion w.r.t. less)
 //@ pred HasProof(c *protocol.ViewChangeMessageContent) = c.SignedHeader().PreparedProof() != nil && len(c.SignedHeader().PreparedProof().Raw()) > 0
 //@ func (*TermInCommittee).latestViewChangeVote
-//@   props C07 C09
+//@   props C07 C09 C12
+//@   safety iface
 //@   requires forall k :: 0 <= k && k < len(confirmations) ==> confirmations[k] != nil
 //@   ensures [none-has-proof] result == nil ==> (forall k :: 0 <= k && k < len(confirmations) ==> !HasProof(confirmations[k]))
 //@   ensures [is-a-vote-with-proof] result != nil ==> (exists k :: 0 <= k && k < len(confirmations) && confirmations[k] == result) && HasProof(result)
@@ -354,7 +365,8 @@ package termincommittee
 //@     invariant [every-vote-with-proof-is-in-res] forall k :: 0 <= k && k < $i && HasProof(confirmations[k]) ==> (exists p :: 0 <= p && p < len(res) && res[p] == confirmations[k])
 
 //@ func (*TermInCommittee).initView
-//@   props C07 C10 C13 C19
+//@   props C07 C10 C13 C19 C12
+//@   safety iface
 //@   requires TicOK(tic)
 //@   modifies state.State.view
 //@   ensures [ok] result1 == nil ==> tic.State.view == newView && newView >= old(tic.State.view) && result0 != nil && result0.view == newView && result0.height == tic.State.height
@@ -366,7 +378,8 @@ package termincommittee
 //@   assert before call processPreprepare [O15.6.context-observed-live-after-validation] latestVote != nil || lastCtxErrNil
 //@   requires [term-not-yet-committed] ncommitted == 0
 //@   ensures [O9.lock-kept] LockKept(tic, old(tic.preparedLocally), old(tic.preparedLocally.isPreparedLocally), old(tic.preparedLocally.latestView))
-//@   props C04 C07 C08 C10 C09 C15
+//@   props C04 C07 C08 C10 C09 C15 C12
+//@   safety iface
 //@   requires TicOK(tic)
 //@   inv GhostInv(tic)
 //@   requires [FilterOK] nvm != nil && nvm.content != nil && nvm.content.SignedHeader().BlockHeight() == tic.State.height && nvm.content.Sender().MemberId() != tic.myMemberId
@@ -423,7 +436,8 @@ package termincommittee
 //@ func (*TermInCommittee).HandleViewChange
 //@   requires [term-not-yet-committed] ncommitted == 0
 //@   ensures [O9.lock-kept] LockKept(tic, old(tic.preparedLocally), old(tic.preparedLocally.isPreparedLocally), old(tic.preparedLocally.latestView))
-//@   props C08 C09 C07 C10
+//@   props C08 C09 C07 C10 C12
+//@   safety iface
 //@   requires TicOK(tic)
 //@   inv GhostInv(tic)
 //@   requires [FilterOK] vcm != nil && vcm.content != nil && vcm.content.SignedHeader().BlockHeight() == tic.State.height && vcm.content.Sender().MemberId() != tic.myMemberId
@@ -434,7 +448,8 @@ package termincommittee
 //@   ensures [view-monotone] tic.State.view >= old(tic.State.view) && tic.State == old(tic.State) && lastVC == old(lastVC)
 //@   requires [term-not-yet-committed] ncommitted == 0
 //@   ensures [O9.lock-kept] LockKept(tic, old(tic.preparedLocally), old(tic.preparedLocally.isPreparedLocally), old(tic.preparedLocally.latestView))
-//@   props C07 C09 C10
+//@   props C07 C09 C10 C12
+//@   safety iface
 //@   requires TicOK(tic)
 //@   inv GhostInv(tic)
 //@   requires height == tic.State.height
@@ -450,7 +465,8 @@ package termincommittee
 //@   ensures [view-monotone] tic.State.view >= old(tic.State.view) && tic.State == old(tic.State) && lastVC == old(lastVC)
 //@   requires [term-not-yet-committed] ncommitted == 0
 //@   ensures [O9.lock-kept] LockKept(tic, old(tic.preparedLocally), old(tic.preparedLocally.isPreparedLocally), old(tic.preparedLocally.latestView))
-//@   props C07 C09 C10 C04 C15
+//@   props C07 C09 C10 C04 C15 C12
+//@   safety iface
 //@   requires TicOK(tic)
 //@   inv GhostInv(tic)
 //@   requires [O7.6.i-am-the-leader-of-that-view] tic.myMemberId == LeaderOf(tic.committeeMembers, view)
@@ -483,7 +499,8 @@ package termincommittee
 //@   ensures lastVC == dyn(message, *interfaces.ViewChangeMessage).content.SignedHeader().View()
 
 //@ func (*TermInCommittee).moveToNextLeaderByElection
-//@   props C09 C10 C19 C07
+//@   props C09 C10 C19 C07 C12
+//@   safety iface
 //@   requires TicOK(tic)
 //@   inv GhostInv(tic)
 //@   requires [term-not-yet-committed] ncommitted == 0
@@ -498,7 +515,8 @@ package termincommittee
 
 //@ func (*TermInCommittee).startTerm
 //@   assert before call For [O15.7.proposal-requested-under-the-context-of-its-own-view] $hv.height == tic.State.height && $hv.view == 0
-//@   props C10 C14 C15
+//@   props C10 C14 C15 C12
+//@   safety iface
 //@   requires TicOK(tic)
 //@   inv GhostInv(tic)
 //@   requires [fresh-term] ncommitted == 0 && lastVC < 0 && (forall gv int :: !ppStored[gv] && !proposed[gv] && !sentPrepare[gv] && !sentCommit[gv])
